@@ -613,8 +613,15 @@ func parseDurationSTL(i string, framerate int) (d time.Duration, err error) {
 	}
 
 	// Set duration
-	d = time.Duration(hours)*time.Hour + time.Duration(minutes)*time.Minute + time.Duration(seconds)*time.Second + time.Duration(1e9*frames/framerate)*time.Nanosecond
+	d = time.Duration(hours)*time.Hour + time.Duration(minutes)*time.Minute + time.Duration(seconds)*time.Second + stlFramesToDuration(frames, framerate)
 	return
+}
+
+// stlFramesToDuration returns the first whole nanosecond of a frame: rounding up (instead of down) makes sure
+// formatting the result gives the same frame number again, e.g. frame 1 at 30 fps is 33333334ns, not 33333333ns
+// which belongs to frame 0.
+func stlFramesToDuration(frames, framerate int) time.Duration {
+	return time.Duration((1e9*frames+framerate-1)/framerate) * time.Nanosecond
 }
 
 // formatDurationSTL formats a STL duration
@@ -816,7 +823,7 @@ func formatDurationSTLBytes(d time.Duration, framerate int) (o []byte) {
 
 // parseDurationSTLBytes parses a STL duration in bytes
 func parseDurationSTLBytes(b []byte, framerate int) time.Duration {
-	return time.Duration(uint8(b[0]))*time.Hour + time.Duration(uint8(b[1]))*time.Minute + time.Duration(uint8(b[2]))*time.Second + time.Duration(1e9*int(uint8(b[3]))/framerate)*time.Nanosecond
+	return time.Duration(uint8(b[0]))*time.Hour + time.Duration(uint8(b[1]))*time.Minute + time.Duration(uint8(b[2]))*time.Second + stlFramesToDuration(int(uint8(b[3])), framerate)
 }
 
 type stlCharacterHandler struct {
